@@ -194,6 +194,11 @@ func (s *Swarm[T]) handleMessage(ctx context.Context, msg p2p.Message[T]) error 
 	if out != nil {
 		remoteKey := cs.Channel.RemoteKey()
 		srcID := s.config.fingerprinter(&remoteKey)
+		// the channel may have been opened by a Tell of ours: the whitelist is
+		// about who may be heard, whoever spoke first
+		if !s.config.whitelist(Addr[T]{ID: srcID, Addr: msg.Src}) {
+			return nil
+		}
 		return s.hub.Deliver(ctx, p2p.Message[Addr[T]]{
 			Src:     Addr[T]{ID: srcID, Addr: msg.Src},
 			Dst:     Addr[T]{ID: s.localID, Addr: msg.Dst},
